@@ -117,3 +117,49 @@ def replay(ctx, verdict):
 # Proofs/AtomPanel.v is listed because the session-pair model takes "the k connections belong to ONE session at each end"
 # as given: on the server that is ActiveUser.GetSession's look-up-or-create being one critical section (C15's obligation)
 TRUSTED = TRUSTED + ['all connections of one session id are attached to one Session object at the server: generated obligation GetSession_lookup_authorise_create_one_step (Proofs/AtomPanel.v), C15']
+
+
+# ---- one stream with a large unread backlog must not stall the others (harness/multiplex/c01_backlog_test.go)
+def backlog(ctx, verdict):
+    q = ctx.quick()
+    cases = ['bl0 BACKLOG 0 2 %d 22' % (8 if q else 96), 'bl1 BACKLOG 3 1 %d 1' % (5 if q else 40), 'bl2 BACKLOG 1 3 %d 300' % (6 if q else 40)]
+    inp, out = '%s/backlog.in' % ctx.work, '%s/backlog.out' % ctx.work
+    open(inp, 'w').write('\n'.join(cases) + '\n')
+    rc, log, dt = vlib.go_test(ctx, 'multiplex', 'TestVerifC01Backlog', files=['c01_backlog_test.go'], env=dict(VERIF_IN=inp, VERIF_OUT=out), timeout=900)
+    got = vlib.read_lines_by_id(out)
+    broken = []
+    if rc != 0 or len(got) < len(cases):
+        broken.append(('Go driver TestVerifC01Backlog failed rc=%d' % rc, log[-3000:]))
+    for c in cases:
+        g = got.get(c.split()[0])
+        if g is None:
+            continue
+        f = c.split()
+        if ' b=ok a=ok closed=0' not in g or not g.startswith('wroteA=%d ' % (int(f[4]) << 20)):
+            verdict.oracle_failure('backlog-stalls-session', 'C01 oracle: %s MiB written to one stream and not yet read by its receiver, then %s bytes written to ANOTHER stream of the same healthy session (%s connections, method %s): %s - every stream must keep working, every byte must arrive' % (f[4], f[5], f[3], f[2], g),
+                                   dict(kind='backlog', case=c, observed=g, how='go test -run TestVerifC01Backlog with harness/multiplex/c01_backlog_test.go (VERIF_IN = the case line)'))
+            break
+    verdict.cov['unread_backlog_cases'] = dict(cases=cases, results=[got.get(c.split()[0]) for c in cases], go_seconds=round(dt, 1))
+    return broken
+
+
+_corr_before_backlog = correspondence
+_replay_before_backlog = replay
+ASSUMPTIONS = ASSUMPTIONS + ['the unread bytes buffered for one stream stay below recvBufferSizeLimit (2^31-1: beyond it the code parks the receive loop by design); the model\'s pipes are unbounded']
+
+
+def correspondence(ctx, verdict, pr):
+    res = _corr_before_backlog(ctx, verdict, pr)
+    res['broken'] += backlog(ctx, verdict)
+    return res
+
+
+def replay(ctx, verdict):
+    if ctx.replay.get('kind') == 'backlog':
+        inp, out = '%s/backlog.in' % ctx.work, '%s/backlog.out' % ctx.work
+        open(inp, 'w').write(ctx.replay['case'] + '\n')
+        rc, log, dt = vlib.go_test(ctx, 'multiplex', 'TestVerifC01Backlog', files=['c01_backlog_test.go'], env=dict(VERIF_IN=inp, VERIF_OUT=out), timeout=900)
+        import os
+        print(open(out).read() if os.path.exists(out) else log[-1500:])
+        return 0
+    return _replay_before_backlog(ctx, verdict)
